@@ -122,7 +122,7 @@ def run(chk: Check):
     chk.prove(FAM, "Props.C16", THEOREMS)
     chk.prove(FAM, "Props.C16Core", CORE_THEOREMS)
     from ..translate import tables as T
-    natives = [k for k, _, _, _ in T.parser_supported_types() if k != "signed char"]
+    natives = [k for k, _, _, _ in T.parser_supported_types()]
     corpus = build_corpus(rng, chk.tier, natives, nrandom=(90 if chk.tier == "quick" else 900)) + extra_closures()
 
     # ---- (a) determinism: differential execution only (NOT a proof)
